@@ -1,8 +1,11 @@
 #!/bin/bash
 # Re-confirm and re-run every stored seeded change (or those of the given
-# property ids) from /verif/seeded/<id>-<k>/ ; with SEEDED_VIA_WORKTREE unset
-# the change is applied to /repo itself and reverted straight afterwards.
+# property ids) from /verif/seeded/<id>-<k>/, each applied in a scratch
+# worktree of /repo (never to /repo itself).
 cd /verif
+# always through a scratch worktree: several reseeds may run at once, and a
+# patch applied to /repo itself by one would be seen (and reverted) by another
+export SEEDED_VIA_WORKTREE=1
 ids=${@:-$(ls seeded | sed 's/-[0-9]*$//' | sort -u)}
 for P in $ids; do
   out=/tmp/reseed-$P-out; wt=/tmp/reseed-$P
